@@ -12,5 +12,5 @@ for patch in "$@"; do
     if [ $code -ne 0 ]; then echo "   $name C$i exit=$code :: $(echo "$out" | grep -E 'what:|MACHINERY' | head -2 | cut -c1-250 | tr '\n' ' ')"; fi
   done
   echo "$line"
-  git -C /repo checkout -- .
+  git -C /repo checkout -- . && git -C /repo clean -fdq src
 done
